@@ -1,42 +1,56 @@
 ------------------------------ MODULE C18_trigger ------------------------------
 (* ACTIONX triggering state machine (property C18, part b).
 
-   One action with parameters
+   One action name with parameters
        mr  maximum number of runs        (0..MaxRun)
        mw  minimum wait between runs     (0..MaxWait days)
-       so  start time offset from t0     (0 or StartOff days)
+       so  start time offset             (0..StartOff days after the definition)
    is driven by the simulator loop: at every evaluation the clock advances by
    dt days (0..MaxDt) and the condition evaluates to c; the action runs iff it
    is *ready* (count below mr, start time reached, min wait elapsed since the
    previous run) and c holds.
 
+   REDEFINITION: the schedule may define the same ACTIONX name again (at most
+   MaxRedef times, variants RP[k] = <<mr, mw, so>>).  The new definition is a
+   new action (name + definition index id): count 0, no previous run, start
+   time = time of the redefinition + so.  The run records of the earlier
+   definitions stay in the action state but must not influence the new one.
+
    Time is abstracted to what decides the future:
-       rc   number of runs so far
-       dl   days since the last run, capped at MaxWait   (-1: never ran)
-       el   days since t0, capped at StartOff
-       gap  days between the two most recent runs, capped at MaxWait (-1: < 2 runs)
+       rc   number of runs of the current definition
+       dl   days since its last run, capped at MaxWait   (-1: never ran)
+       el   days since the current definition was made, capped at StartOff
+       gap  days between its two most recent runs, capped at MaxWait (-1: < 2 runs)
+       id   definition index (number of redefinitions so far)
+       od   GHOST (history variable, decides nothing in this model): days since
+            the last run of the oldest earlier definition that ever ran, capped
+            at MaxWait (-1: none).  It makes the BFS-tree paths used by the
+            replay pass through histories in which earlier definitions have run.
    The caps are exact because ready() only compares dl with mw <= MaxWait and
    el with so <= StartOff.
 
    Every edge of the reachable graph is replayed on the real
-   Actions::pending / ActionX::ready / ActionX::eval / State::add_run by
-   harness/C18_actionx --edges (see harness/C18_tla.py).                      *)
+   Actions::add / Actions::pending / ActionX::ready / ActionX::eval /
+   State::add_run by harness/C18_actionx --edges (see harness/C18_tla.py).    *)
 EXTENDS Integers
 
-CONSTANTS MaxRun, MaxWait, StartOff, MaxDt
+CONSTANTS MaxRun, MaxWait, StartOff, MaxDt, MaxRedef
 
-VARIABLES mr, mw, so, rc, dl, el, gap
+VARIABLES mr, mw, so, rc, dl, el, gap, id, od
 
-vars == <<mr, mw, so, rc, dl, el, gap>>
+vars == <<mr, mw, so, rc, dl, el, gap, id, od>>
+
+(* redefinition variants <<max_run, min_wait, start offset>>; the same table is RP[] in harness/C18_actionx.cpp *)
+RP == << <<2, 1, 0>>, <<3, 2, 1>>, <<1, 0, 0>> >>
 
 Min(a, b) == IF a < b THEN a ELSE b
 
-TypeOK == /\ mr \in 0..MaxRun /\ mw \in 0..MaxWait /\ so \in {0, StartOff}
+TypeOK == /\ mr \in 0..MaxRun /\ mw \in 0..MaxWait /\ so \in 0..StartOff
           /\ rc \in 0..MaxRun /\ dl \in -1..MaxWait /\ el \in 0..StartOff
-          /\ gap \in -1..MaxWait
+          /\ gap \in -1..MaxWait /\ id \in 0..MaxRedef /\ od \in -1..MaxWait
 
 Init == /\ mr \in 0..MaxRun /\ mw \in 0..MaxWait /\ so \in {0, StartOff}
-        /\ rc = 0 /\ dl = -1 /\ el = 0 /\ gap = -1
+        /\ rc = 0 /\ dl = -1 /\ el = 0 /\ gap = -1 /\ id = 0 /\ od = -1
 
 Ready(dlx, elx) == /\ rc < mr
                    /\ elx >= so
@@ -49,21 +63,32 @@ Step(dt, c) ==
         /\ IF Ready(dlx, elx) /\ c
              THEN /\ rc' = rc + 1 /\ dl' = 0 /\ gap' = dlx
              ELSE /\ rc' = rc /\ dl' = dlx /\ gap' = gap
-        /\ UNCHANGED <<mr, mw, so>>
+        /\ od' = (IF od = -1 THEN -1 ELSE Min(od + dt, MaxWait))
+        /\ UNCHANGED <<mr, mw, so, id>>
 
-(* the TLC graph dump labels every edge with "Step(dt,c)" *)
-Next == \E dt \in 0..MaxDt, c \in BOOLEAN : Step(dt, c)
+Redefine(k) ==
+    /\ id < MaxRedef
+    /\ mr' = RP[k][1] /\ mw' = RP[k][2] /\ so' = RP[k][3]
+    /\ rc' = 0 /\ dl' = -1 /\ el' = 0 /\ gap' = -1
+    /\ id' = id + 1
+    /\ od' = (IF od # -1 THEN od ELSE dl)
+
+(* the TLC graph dump labels every edge with "Step(dt,c)" or "Redefine(k)" *)
+Next == \/ \E dt \in 0..MaxDt, c \in BOOLEAN : Step(dt, c)
+        \/ \E k \in 1..3 : Redefine(k)
 
 Spec == Init /\ [][Next]_vars
 
-(* the three limits of the property text *)
+(* the three limits of the property text, per definition *)
 CountInv == rc <= mr                              \* never more often than its maximum count
 WaitInv  == gap = -1 \/ gap >= mw                 \* never sooner than min wait after the previous run
 StartInv == rc > 0 => el >= so                    \* never before its start time
-(* step property: the count moves by at most one, and only on a step that
-   satisfies all three limits.  ("A ready action whose condition holds does
-   run" is the THEN branch of Step itself; it is checked against the
-   implementation by the edge replay, on every T-edge.)                    *)
-RunStep == [][/\ rc' \in {rc, rc + 1}
-              /\ rc' = rc + 1 => (rc < mr /\ el' >= so /\ dl' = 0 /\ (gap' = -1 \/ gap' >= mw))]_vars
+(* step property: within a definition the count moves by at most one, and only
+   on a step that satisfies all three limits; a redefinition starts at 0.
+   ("A ready action whose condition holds does run" is the THEN branch of Step
+   itself; it is checked against the implementation by the edge replay, on
+   every T-edge.)                                                           *)
+RunStep == [][/\ (id' = id => rc' \in {rc, rc + 1})
+              /\ (id' # id => (rc' = 0 /\ dl' = -1))
+              /\ ((id' = id /\ rc' = rc + 1) => (rc < mr /\ el' >= so /\ dl' = 0 /\ (gap' = -1 \/ gap' >= mw)))]_vars
 ================================================================================
